@@ -70,9 +70,27 @@ pub fn judge(text: &str, ops: &OpSet, stage: &str, out: &mut WorkerOut) -> bool 
             out.fail(format!("panic:parse:{}", normalise_panic(m)), format!("{}|{}", stage, show(text)), m.clone());
             false
         }
-        (Err(_), Res::Err(_)) => {
+        (Err(e), Res::Err(_)) => {
             out.outcomes.insert("both-reject".into());
             out.count("rejected", 1);
+            // "and therefore execute": for inputs of at most two plain words (operator words, names, numbers) the one-call entry point is asked too, on
+            // a context that binds every operator word and name of the alphabets as a variable
+            if text.len() <= 24 && text.split_whitespace().count() <= 2 && text.chars().all(|c| c.is_ascii_alphanumeric() || c == ' ' || c == '_' || c == '.') {
+                let mut ctx = expression_engine::Context::new();
+                for n in ["in", "not", "AND", "OR", "beginWith", "endWith", "wop", "x", "a", "true", "e", "E", "_"] {
+                    ctx.set_variable(n, expression_engine::Value::from(7));
+                }
+                out.evals += 1;
+                match engine::execute(text, ctx) {
+                    Res::Ok(v) => out.fail(
+                        format!("accepted-malformed:execute:{}", perr_class(e)),
+                        format!("{}|{}", stage, show(text)),
+                        format!("reference grammar rejects ({:?}) and parse_expression rejects, but execute returned Ok({:?})", e, v),
+                    ),
+                    Res::Panic(m) => out.fail(format!("panic:execute:{}", normalise_panic(&m)), format!("{}|{}", stage, show(text)), m),
+                    Res::Err(_) => {}
+                }
+            }
             false
         }
         (Ok(_), r) => {
